@@ -125,9 +125,9 @@ where
         let owned = R::Owned::from_json(v);
         let f = self.caps.forms[form].1;
         self.ids.reserve(1);
-        let before = crate::alloc::allocs();
+        crate::alloc::window_take();
         let idx = f(&mut self.region, &owned);
-        let n = crate::alloc::allocs() - before;
+        let n = crate::alloc::window_take();
         self.ids.push(idx);
         (idx.idx_json(), n)
     }
